@@ -16,7 +16,11 @@ def depOfJson (j : Json) : Except String Dep := do
   let j' := match j.getObjVal? "j" with
     | .ok (Json.bool b) => b
     | _ => false
-  pure { unsetup := uns, optional := opt, name := ← jstr j "n", ver := ← jstrOpt j "v", noRec := j' }
+  let flag (k : String) : Bool := match j.getObjVal? k with
+    | .ok (Json.bool b) => b
+    | _ => false
+  pure { unsetup := uns, optional := opt, name := ← jstr j "n", ver := ← jstrOpt j "v", noRec := j',
+         external := flag "external" }
 
 def dbOfJson (g : Json) : Except String Db := do
   let ps ← jarr g "products"
@@ -90,6 +94,12 @@ def handle : Handler := fun j => do
       | _ => throw "expected [topological, checkCycles]"
     let lists := roots.map fun (n, v) =>
       Json.arr (modes.map fun (t, c) => outcomeToJson (getDependentProducts db fuel ⟨n, v, true⟩ t c)).toArray
+    let builds := roots.map fun (n, v) =>
+      match createDeps db fuel ⟨n, v, true⟩ with
+      | .ok l => Json.mkObj [("out", "ok"), ("list", Json.arr (l.map fun (a, b, c) =>
+          Json.arr #[ofStr a, ofStrOpt b, Json.bool c]).toArray)]
+      | .notFound => Json.mkObj [("out", "NotFound")]
+      | .undetermined => Json.mkObj [("out", "Undetermined")]
     let queries ← (← jarr j "queries").mapM pairOfJson
     let usesPart : List (String × Json) :=
       if queries.isEmpty then [] else
@@ -98,7 +108,23 @@ def handle : Handler := fun j => do
       | .cycle => [("uses", "Cycle")]
       | .ok sb => [("uses", "ok"),
                    ("users", Json.arr (queries.map fun (n, v) => Json.arr ((users sb n v).map userToJson).toArray).toArray)]
-    pure (Json.mkObj ([("lists", Json.arr lists.toArray)] ++ usesPart))
+    pure (Json.mkObj ([("lists", Json.arr lists.toArray), ("builds", Json.arr builds.toArray)] ++ usesPart))
+  | "setup" =>
+    -- `{"graph":G,"setup":[[n,v]..],"roots":[[n,v]..],"modes":[..]}`: `eups list -D --setup` listings
+    let db ← dbOfJson (← j.getObjVal? "graph")
+    let setup ← (← jarr j "setup").mapM fun x => do
+      match (← x.getArr?).toList with
+      | [a, b] => pure (Str.ofString (← a.getStr?), Str.ofString (← b.getStr?))
+      | _ => throw "expected [name, version] in the set-up list"
+    let roots ← (← jarr j "roots").mapM pairOfJson
+    let modes ← (← jarr j "modes").mapM fun m => do
+      let a ← m.getArr?
+      match a.toList with
+      | [t, c] => do pure (← t.getBool?, ← c.getBool?)
+      | _ => throw "expected [topological, checkCycles]"
+    let lists := roots.map fun (n, v) =>
+      Json.arr (modes.map fun (t, c) => outcomeToJson (getDependentProductsSetup db db.fuel ⟨n, v, true⟩ setup t c)).toArray
+    pure (Json.mkObj [("lists", Json.arr lists.toArray)])
   | "topo" =>
     let g ← natGraphOfJson j
     match Topo.topologicalSort g (← jbool j "cc") with
